@@ -12,6 +12,7 @@ import (
 	"io"
 	"os"
 	"sort"
+	"strings"
 	"sync"
 	"sync/atomic"
 
@@ -76,7 +77,7 @@ func NewFixture(ctx context.Context, nWallets, perWallet int, withLocked bool, e
 	enc := keystorev4.New()
 	fx := &Fixture{}
 	keys := append(append([][]byte{}, daemon.Wallet1Keys...), daemon.Wallet2Keys...)
-	for i := len(keys); i < nWallets*perWallet+1+len(extraNames); i++ {
+	for i := len(keys); i < nWallets*perWallet+2+len(extraNames); i++ {
 		h := sha256.Sum256([]byte(fmt.Sprintf("verif key %d", i)))
 		h[0] = 0 // below the group order
 		keys = append(keys, h[:])
@@ -88,7 +89,7 @@ func NewFixture(ctx context.Context, nWallets, perWallet int, withLocked bool, e
 		pass string
 		info *AcctInfo
 	}
-	var jobs, extraJobs []job
+	var jobs, extraJobs, dupJobs []job
 	id := 1
 	for w := 0; w < nWallets; w++ {
 		wname := fmt.Sprintf("Wallet %d", w+1)
@@ -107,9 +108,21 @@ func NewFixture(ctx context.Context, nWallets, perWallet int, withLocked bool, e
 			fx.Accounts = append(fx.Accounts, info)
 			id++
 		}
+		if w == nWallets-1 {
+			// "=name": an account of the last wallet holding the same key as the very first account
+			for _, name := range extraNames {
+				if strings.HasPrefix(name, "=") {
+					info := &AcctInfo{Wallet: wname, Name: name[1:], ID: 1, Usable: true, Signer: true}
+					dupJobs = append(dupJobs, job{wallet, name[1:], keys[0], "pass", info})
+				}
+			}
+		}
 		if w == 0 {
 			// further accounts of the first wallet, whose names differ from a regular account's only by blanks
 			for _, name := range extraNames {
+				if strings.HasPrefix(name, "=") {
+					continue
+				}
 				info := &AcctInfo{Wallet: wname, Name: name, ID: 0, Usable: true, Signer: true}
 				extraJobs = append(extraJobs, job{wallet, name, nil, "pass", info})
 			}
@@ -127,6 +140,10 @@ func NewFixture(ctx context.Context, nWallets, perWallet int, withLocked bool, e
 		jobs = append(jobs, j)
 		fx.Accounts = append(fx.Accounts, j.info)
 		id++
+	}
+	for _, j := range dupJobs {
+		jobs = append(jobs, j)
+		fx.Accounts = append(fx.Accounts, j.info)
 	}
 	// keystore encryption is slow (tens of ms per account): import sequentially per wallet is
 	// required by the wallet's index, so only parallelise across wallets.
